@@ -48,7 +48,11 @@ def step (st : Unit) (j : Json) : Unit × Json :=
           | some nm => pure nm
           | none => throw "bad filter name"
         let circle ← boolField j "circle"
-        let out := if alg == "torch" then iradonTorch sino th nm circle else iradonSk sino th nm circle
+        let out ← match fieldD j "out" Json.null with
+          | Json.null => pure (if alg == "torch" then iradonTorch sino th nm circle else iradonSk sino th nm circle)
+          | o => do
+              let m ← o.getNat?
+              pure (if alg == "torch" then iradonTorchOut sino th nm circle m else iradonSkOut sino th nm circle m)
         pure (Json.mkObj [("ok", floatsToJson out.flatten), ("size", Json.num (JsonNumber.fromNat out.length))])
     | _ => throw s!"bad op {op}" : Except String Json) with
   | .ok r => (st, r)
